@@ -436,6 +436,36 @@ def rule_loops_not_cut_short(ctx, rule_id):
                                                        short(lp.iter, 50) if isinstance(lp, ast.For) else "the iteration"),
                                   file=fi.module.relpath, line=lp.lineno, function=fi.qualname,
                                   expected="the loop ranges over every element", found=short(lp, 90))
+            # an OPTION of the call (a parameter with a constant True / False default) rebound inside a loop is loop-carried
+            # state: what the option means for element k depends on what elements 1..k-1 were (`lang = m.get('lang') if lang
+            # else None` turns the option off for every later element once one element has no language).  The package rebinds
+            # no option inside a loop.
+            a_ = fi.node.args if hasattr(fi.node, "args") else None
+            if a_ is not None:
+                pos = a_.posonlyargs + a_.args
+                dflt = dict(zip([x_.arg for x_ in pos][len(pos) - len(a_.defaults):], a_.defaults))
+                dflt.update({x_.arg: d_ for x_, d_ in zip(a_.kwonlyargs, a_.kw_defaults) if d_ is not None})
+                flags = {k for k, v in dflt.items() if isinstance(v, ast.Constant) and isinstance(v.value, bool)}
+                j_ = 0
+                seen_ = set()
+                for lp in body_walk(fi.node) if flags else ():
+                    if not isinstance(lp, (ast.For, ast.While)):
+                        continue
+                    for st_ in lp.body + lp.orelse:
+                        for x in ast.walk(st_):
+                            tg = x.targets if isinstance(x, ast.Assign) else [x.target] if isinstance(x, (ast.AugAssign, ast.AnnAssign, ast.For, ast.NamedExpr)) else []
+                            for t_ in tg:
+                                for nm in ast.walk(t_):
+                                    if isinstance(nm, ast.Name) and nm.id in flags and id(x) not in seen_:
+                                        seen_.add(id(x))
+                                        j_ += 1
+                                        run.violation(rule_id, key(fi.module.relpath, fi.qualname, "option-rebound-in-loop#%d" % j_),
+                                                      "the option `%s` of the call is rebound inside a loop: from the second element on the "
+                                                      "loop works with a value computed from earlier elements, not with what the caller "
+                                                      "asked for -- the answer depends on the order of the elements" % nm.id,
+                                                      file=fi.module.relpath, line=x.lineno, function=fi.qualname,
+                                                      expected="options are read-only inside loops (use a local of another name)",
+                                                      found=short(x, 90))
         run.ok(rule_id, key(m.relpath, "<module>", "loops-examined"))
     run.extra["loops_examined"] = n
     return n
